@@ -70,3 +70,24 @@ def tie(ck, stats, mx, run, sol, what):
             k = next((i for i, (g, w) in enumerate(zip(got, want)) if g != w), min(len(got), len(want)))
             ck.obligation_broken(name + ": (anti)periodic pair %d of the solution file is %r, the renumbered pair of the .pbc file is %r (%d vs %d pairs)"
                                  % (k, got[k] if k < len(got) else None, want[k] if k < len(want) else None, len(got), len(want)), dict(files=run.files()))
+
+
+def tie_bandwidth(ck, stats, mx, run, impl_bw, what):
+    """`BandWidth` as the real `Cuthill()` left it (printed by an in-process assembly harness) vs the model's, on the same mesh files"""
+    try:
+        nodes = femmio.read_node(run.snap(".node"))
+        edges = femmio.read_edge(run.snap(".edge"))
+    except (OSError, ValueError, IndexError):
+        return
+    req = ["n %d" % len(nodes), "edges " + " ".join("%d %d" % (e[0], e[1]) for e in edges), "els", "run"]
+    r = subprocess.run([mx, "cuthill"], input="\n".join(req) + "\n", stdout=subprocess.PIPE, text=True, timeout=600)
+    rep = r.stdout.splitlines()
+    st = stats.setdefault("cuthill_tie", dict(runs=0, nodes=0, elements=0, max_bandwidth=0))
+    if len(rep) < 4 or " | bw " not in rep[3]:
+        ck.obligation_broken("correspondence cuthill (band width, %s): the model does not produce a numbering" % what, dict(files=run.files()))
+        return
+    bw = int(rep[3].split(" | ")[1].split()[1])
+    st["bandwidths_compared"] = st.get("bandwidths_compared", 0) + 1
+    if bw != impl_bw:
+        ck.obligation_broken("correspondence cuthill: BandWidth of FEASolver::Cuthill (%s) is %d, Model/Cuthill.lean computes %d" % (what, impl_bw, bw),
+                             dict(files=run.files()))
